@@ -97,7 +97,9 @@ func (snt *ScrapligoNetconfTarget) EditConfig(target string, config string) (*ty
 	if err != nil {
 		return nil, err
 	}
-	if len(resp.ErrorMessages) > 0 {
+	// scrapligo only classifies un-prefixed rpc-errors by severity. A reply it marks as failed is an error unless
+	// all it recognised are warnings (a namespace prefixed <nc:rpc-error> is neither list, it is an error)
+	if resp.Failed != nil && (len(resp.ErrorMessages) > 0 || len(resp.WarningErrorMessages) == 0) {
 		return nil, resp.Failed
 	}
 
